@@ -404,8 +404,17 @@ func (r *walRun) checkRecovered(what string) {
 		r.alts = []*refLog{got}
 		return
 	}
-	for _, a := range r.alts {
+	for i, a := range r.alts {
 		if a.key() == got.key() {
+			if len(r.alts) > 1 {
+				if i == 0 {
+					r.c.stat("recovered_acked_state")
+				} else {
+					r.c.stat("recovered_inflight_state")
+				}
+			} else {
+				r.c.stat("recovered_only_allowed_state")
+			}
 			r.alts = []*refLog{a}
 			return
 		}
@@ -547,6 +556,7 @@ func (r *walRun) run() string {
 	emit := func(s string) { r.out = append(r.out, s) }
 	for i := 0; i < len(ops); i++ {
 		op := ops[i]
+		r.c.stat("op_" + op)
 		actsBefore := r.nActs()
 		altsBefore := cloneAlts(r.alts)
 		ackedBefore := cloneAcked(r.acked)
@@ -939,6 +949,18 @@ func (r *walRun) run() string {
 			if r.cfs == nil {
 				return "badinput"
 			}
+			r.c.stat("crashes")
+			if cnt := r.cfs.counted(); k-r.cfs.baseCount >= 1 && k-r.cfs.baseCount <= len(cnt) {
+				r.c.stat("crash_after_" + string(cnt[k-r.cfs.baseCount-1].kind))
+			} else {
+				r.c.stat("crash_after_none")
+			}
+			r.c.stats["crash_kept_nondurable_files"] += len(keepFile)
+			r.c.stats["crash_kept_batches"] += len(keepBatch)
+			r.c.stats["crash_torn_batches"] += len(torn)
+			if len(r.hist) == 1 && r.hist[0].actsBefore == r.hist[0].actsAfter && r.lastCrashK > 0 {
+				r.c.stat("crash_nested")
+			}
 			// allowed states: what was acknowledged when action k completed, or the op in flight applied
 			var alts []*refLog
 			var st map[string]string
@@ -1005,6 +1027,11 @@ func (r *walRun) run() string {
 	}
 	if r.w != nil {
 		r.checkHeld()
+	}
+	if r.cfs != nil {
+		for k, v := range r.cfs.faultsFired {
+			r.c.stats["fault_fired_on_"+k] += v
+		}
 	}
 	if r.cfs != nil && r.cfs.dupID != "" {
 		r.c.witness("C13", "segment-identity-reused", r.cfs.dupID, r.line)
